@@ -87,7 +87,13 @@ impl<T> ResourceStorage<T> {
 	/// and none waiting to be added to it.
 	#[must_use]
 	pub fn is_empty(&self) -> bool {
-		self.resources.is_empty() && self.new_resource_consumer.is_empty()
+		self.resources.is_empty() && !self.has_pending()
+	}
+
+	/// Returns `true` if there are resources waiting to be added to the arena.
+	#[must_use]
+	pub fn has_pending(&self) -> bool {
+		!self.new_resource_consumer.is_empty()
 	}
 }
 
